@@ -1017,7 +1017,7 @@ class CPCCA(BaseModelCrossSet):
     @staticmethod
     def _normalize_data(X, dim):
         # Assume centered data
-        return X / X.std(dim)
+        return X / X.std(dim, ddof=1)
 
 
 class ComplexCPCCA(CPCCA):
